@@ -513,7 +513,7 @@ def rule_nonblank(c: Ctx) -> RuleResult:
                       f"block (the token's map ends on - or spans - a blank line and no longer matches its stripped content)")
     if nloops < 1:
         raise AnchorError("no scan loop found behind the stripped getLines cuts of the block rules")
-    if nfun < 3:
+    if nfun < 2:
         raise AnchorError(f"only {nfun} block rules cut stripped text out of a scanned run of lines (paragraph, lheading, reference were confirmed by reading)")
     r.floor = 3
     return r
